@@ -23,6 +23,7 @@ type State struct {
 	inputs   []InputDecl
 	obs      []Observation
 	obsBad   bool
+	sends    int // channel sends performed on this path
 	lastNowSec, lastNowNsec *Term
 	tag      string // deliberate case splits (vChoice, vBytesEach, concretize): states with different tags never merge
 }
@@ -48,6 +49,7 @@ func (s *State) fork() *State {
 	n.obs = append([]Observation(nil), s.obs...)
 	n.obsBad = s.obsBad
 	n.tag = s.tag
+	n.sends = s.sends
 	n.lastNowSec, n.lastNowNsec = s.lastNowSec, s.lastNowNsec
 	return n
 }
@@ -213,7 +215,7 @@ func (e *Exec) store(st *State, p Ptr, v Value) {
 
 // tryMerge merges b into a (returning a new state) or reports failure.
 func (e *Exec) tryMergeStates(a, b *State) (m *State, cond *Term, ok bool) {
-	if a.noMerge || b.noMerge || e.opts.NoMerge || a.tag != b.tag {
+	if a.noMerge || b.noMerge || e.opts.NoMerge || a.tag != b.tag || a.sends != b.sends {
 		return nil, nil, false
 	}
 	if (a.panicVal != nil) != (b.panicVal != nil) {
@@ -243,7 +245,7 @@ func (e *Exec) tryMergeStates(a, b *State) (m *State, cond *Term, ok bool) {
 			panic(r)
 		}
 	}()
-	n := &State{heap: make(map[int]Value, len(a.heap)), counts: map[string]int{}, tag: a.tag}
+	n := &State{heap: make(map[int]Value, len(a.heap)), counts: map[string]int{}, tag: a.tag, sends: a.sends}
 	for id, va := range a.heap {
 		if vb, ok := b.heap[id]; ok {
 			if sameValue(va, vb) {
